@@ -1617,8 +1617,8 @@ iteration order of `ITERATE` — is the resolution C05 specifies (`Spec.resolved
 citation order, first spelling wins, `*` replaced by the database keys in database order, then
 the cross-referenced parents in the order in which they reach `min_crossrefs`:
 `C05_crossref_spec`, `C05_cited_first_in_order`, `C05_wildcard_db_order`, `C05_threshold`) with
-the keys that have no entry left out (`Spec.present`); exactly the dangling cross-references and
-the missing keys are reported; and every key of the list has a well-formed entry stored under it,
+the keys that have no entry left out (`Spec.present`); exactly the dangling cross-references of
+the resolved entries — cited or appended (repair C05-2) — and the missing keys are reported; and every key of the list has a well-formed entry stored under it,
 so that `C14_inherits_nearest`, `C14_missing_iff`, `C14_terminates` … apply to every field a
 style reads (`C03_exec_variable`: a field pushes `bstFieldValue db e name`, the C14 lookup). -/
 theorem C03_read_order (fuel : Nat) (inp : Input) (c : Command) (s s' : St) (hc : upper c.name = "READ".toList)
@@ -1626,7 +1626,7 @@ theorem C03_read_order (fuel : Nat) (inp : Input) (c : Command) (s s' : St) (hc 
     ∃ db, s'.db = some db ∧ DbWF db ∧
       s'.citations = Spec.present db.toS (Spec.resolved db.toS s.citations inp.minCrossrefs) ∧
       s'.reports = s.reports ++ (readerResult inp s).errs.map Interp.Report.bib ++
-        ((Spec.dangling db.toS (Spec.expanded db.toS s.citations)).map fun p =>
+        ((Spec.dangling db.toS (Spec.resolved db.toS s.citations inp.minCrossrefs)).map fun p =>
           Interp.Report.data (Pybtex.Report.badCrossref p.1 p.2)) ++
         ((Spec.missing db.toS (Spec.resolved db.toS s.citations inp.minCrossrefs)).map fun k =>
           Interp.Report.data (Pybtex.Report.missingEntry k)) ∧
